@@ -141,8 +141,9 @@ func (p Pegnet) CheckHardForks(tx QueryAble) error {
 		// This means we already have some heights synced. So we need to insert
 		// -1s for all hardfork heights we synced prior to the version tracking.
 		for _, event := range Hardforks {
-			// If we are past the hardfork, put in a -1
-			if bs.Synced > event.ActivationHeight {
+			// If we are at or past the hardfork, put in a -1: the fork block itself
+			// was synced by the untracked build too
+			if bs.Synced >= event.ActivationHeight {
 				_ = p.markHeightSyncedVersion(tx, event.ActivationHeight, -1)
 			}
 		}
